@@ -83,6 +83,15 @@ check('C04', 'model_checking',
       'TLA+ scanner automata as independent oracle, TLC-enumerated cases replayed, TLC-judged encoder output',
       'DESIGN.md 2.4, 5/C04')
 
+check('C07', 'model_checking',
+      'Every string over 11 character classes up to length 3 (thorough 4) emitted by LexemeMC, plus typed constants, '
+      'is placed in 5 positions and rendered through 6 output paths; the statement must be the benign statement with '
+      'exactly one literal exchanged, and TLC (LexemeTrace) decides with the target scanner of Lexeme.tla whether '
+      'that literal denotes exactly the value and ends at its last character; sqlite literals are also executed.',
+      'No engine offline for mysql/postgresql/mssql/oracle: their lexical rules are the TLA+ scanners.',
+      'TLA+ scanner automata of the target dialects judge the rendered literals; TLC-enumerated values',
+      'DESIGN.md 2.4, 5/C07')
+
 ALL = ['C%02d' % i for i in range(1, 21)]
 
 
